@@ -9,6 +9,7 @@ Every other callee stays an opaque `call` term with its resolved def-path.
 import json
 import struct
 import math
+import re
 
 MAX_PATHS = 4000
 MAX_DEPTH = 12
@@ -960,6 +961,17 @@ class Exec:
             return t
         if len(args) == 1:
             a = peel(args[0])
+            # `(lo..hi).is_empty()` / `(lo..=hi).is_empty()` on constant integer end points
+            if c.name == 'is_empty' and re.search(r'ops::(range::)?Range(Inclusive)?(::<[^>]*>)?::is_empty$', p):
+                ends = None
+                if a[0] == 'adt' and re.search(r'ops::(range::)?Range$', a[1]) and len(a[4]) == 2:
+                    ends, incl = a[4], False
+                elif a[0] == 'call' and len(a[2]) == 2 and self.callees.get(a[1]) is not None \
+                        and re.search(r'RangeInclusive(::<[^>]*>)?::new$', self.callees[a[1]].res_path or self.callees[a[1]].path):
+                    ends, incl = a[2], True
+                if ends and all(e[0] == 'const' and e[1] in INT_TYPES and e[2] is not None for e in ends):
+                    lo, hi = const_value(ends[0]), const_value(ends[1])
+                    return mk_const('bool', not (lo <= hi if incl else lo < hi))
             if a[0] == 'const' and is_float(a[1]) and a[2] is not None:
                 v = const_value(a)
                 if p.endswith('>::is_finite'):
